@@ -48,7 +48,8 @@ type TLCOpts struct {
 	Seed     int64
 	Coverage bool
 	ExtraArg []string
-	Deadlock bool // check deadlock (default off)
+	Expect   []string // actions that must have been taken (generated > 0); implies Coverage
+	Deadlock bool     // check deadlock (default off)
 	MaxSet   int
 	DFS      bool              // StateDeque queue (depth first)
 	OnLine   func(line string) // called for every stdout line
@@ -64,6 +65,7 @@ type TLCResult struct {
 	Prints       []string // unescaped strings printed by PrintT("...")
 	Output       string   // tail of output
 	CoverageZero []string
+	Coverage     map[string][2]int64 // action -> (distinct, generated)
 	Wall         time.Duration
 	Cmd          string
 }
@@ -72,6 +74,7 @@ var reStates = regexp.MustCompile(`^(\d+) states generated, (\d+) distinct state
 var reDepth = regexp.MustCompile(`depth of the complete state graph search is (\d+)`)
 var reInv = regexp.MustCompile(`^Error: Invariant (\S+) is violated`)
 var reCov0 = regexp.MustCompile(`^<(\w+) line .*>: 0:0$`)
+var reCov = regexp.MustCompile(`^<(\w+) line \d+, col \d+ to line \d+, col \d+ of module \w+>: (\d+):(\d+)$`)
 
 // UnquoteTLA turns a TLC-printed string literal into its value.
 func UnquoteTLA(s string) (string, bool) {
@@ -161,7 +164,7 @@ func RunTLC(o TLCOpts) (*TLCResult, error) {
 		}
 		args = append(args, "-seed", strconv.FormatInt(o.Seed, 10))
 	}
-	if o.Coverage {
+	if o.Coverage || len(o.Expect) > 0 {
 		args = append(args, "-coverage", "1")
 	}
 	if o.MaxSet > 0 {
@@ -208,8 +211,16 @@ func RunTLC(o TLCOpts) (*TLCResult, error) {
 				res.OK = true
 			} else if strings.HasPrefix(line, "Error:") && res.Violated == "" {
 				res.Violated = line
-			} else if m := reCov0.FindStringSubmatch(line); m != nil {
-				res.CoverageZero = append(res.CoverageZero, m[1])
+			} else if m := reCov.FindStringSubmatch(line); m != nil {
+				if res.Coverage == nil {
+					res.Coverage = map[string][2]int64{}
+				}
+				d, _ := strconv.ParseInt(m[2], 10, 64)
+				g, _ := strconv.ParseInt(m[3], 10, 64)
+				res.Coverage[m[1]] = [2]int64{d, g}
+				if g == 0 {
+					res.CoverageZero = append(res.CoverageZero, m[1])
+				}
 			} else if len(line) > 0 && line[0] == '"' {
 				if s, ok := UnquoteTLA(line); ok {
 					res.Prints = append(res.Prints, s)
